@@ -156,6 +156,15 @@ func Strip(v ssa.Value) ssa.Value {
 func Resolve(v ssa.Value) ssa.Value {
 	for i := 0; i < 16; i++ {
 		v = Strip(v)
+		// a pass-through helper: every return hands back the same parameter unchanged (`publish(v) int`
+		// stores v somewhere and returns it): the call's value is the argument's value
+		if c, isCall := v.(*ssa.Call); isCall {
+			if a := passThroughArg(c); a != nil {
+				v = a
+				continue
+			}
+			return v
+		}
 		u, ok := v.(*ssa.UnOp)
 		if !ok || u.Op != token.MUL {
 			return v
@@ -167,6 +176,42 @@ func Resolve(v ssa.Value) ssa.Value {
 		return v
 	}
 	return v
+}
+
+// passThroughArg: c calls a function with one result all of whose returns yield the same parameter;
+// returns the corresponding argument (nil otherwise).
+func passThroughArg(c *ssa.Call) ssa.Value {
+	fn := c.Call.StaticCallee()
+	if fn == nil || len(fn.Blocks) == 0 || len(fn.Blocks) > 8 || fn.Signature.Results().Len() != 1 {
+		return nil
+	}
+	idx := -1
+	n := 0
+	for _, b := range fn.Blocks {
+		r, ok := b.Instrs[len(b.Instrs)-1].(*ssa.Return)
+		if !ok {
+			continue
+		}
+		n++
+		p, isParam := Strip(r.Results[0]).(*ssa.Parameter)
+		if !isParam {
+			return nil
+		}
+		k := -1
+		for i, q := range fn.Params {
+			if q == p {
+				k = i
+			}
+		}
+		if k < 0 || (idx >= 0 && idx != k) {
+			return nil
+		}
+		idx = k
+	}
+	if n == 0 || idx < 0 || idx >= len(c.Call.Args) {
+		return nil
+	}
+	return c.Call.Args[idx]
 }
 
 func forwardLoad(u *ssa.UnOp) ssa.Value {
@@ -668,11 +713,90 @@ type Search struct {
 	// a branch on a flag whose value is known on the current path is followed
 	// only in the consistent direction.
 	TrackBools bool
+	// StopEdgeF (with TrackBools): like StopEdge, but also receives the facts that hold on this edge because of
+	// the path taken so far: when the branch condition is a boolean phi (a short-circuit expression kept in a
+	// local: `ok := a || b; if !ok {...}`) whose value on this path is a known non-constant definition d, the
+	// facts are CondFacts(d, direction).
+	StopEdgeF func(from *ssa.BasicBlock, si int, pathFacts []Fact) bool
 	// VisitEnv, when set, is called (besides visit) with the boolean flags known on the current path.
 	VisitEnv func(ins ssa.Instruction, via *ssa.BasicBlock, known func(ssa.Value) (bool, bool))
 }
 
 type boolEnv map[*ssa.Phi]bool
+
+// aliasEnv: boolean phis whose value on the current path is a known non-constant definition
+type aliasEnv map[*ssa.Phi]ssa.Value
+
+func (a aliasEnv) key() string {
+	if len(a) == 0 {
+		return ""
+	}
+	parts := make([]string, 0, len(a))
+	for p, v := range a {
+		parts = append(parts, p.Name()+"="+v.Name())
+	}
+	sort.Strings(parts)
+	return strings.Join(parts, ",")
+}
+
+// enterAlias computes the alias environment after taking the edge pred -> succ.
+func (a aliasEnv) enter(pred, succ *ssa.BasicBlock) aliasEnv {
+	idx := -1
+	for i, p := range succ.Preds {
+		if p == pred {
+			idx = i
+		}
+	}
+	out := aliasEnv{}
+	for k, v := range a {
+		out[k] = v
+	}
+	if idx < 0 {
+		return out
+	}
+	for _, ins := range succ.Instrs {
+		phi, ok := ins.(*ssa.Phi)
+		if !ok {
+			break
+		}
+		if b, isB := phi.Type().Underlying().(*types.Basic); !isB || b.Kind() != types.Bool {
+			continue
+		}
+		in := phi.Edges[idx]
+		if _, isConst := ConstBool(in); isConst {
+			delete(out, phi)
+			continue
+		}
+		if src, isPhi := in.(*ssa.Phi); isPhi {
+			if v, known := a[src]; known {
+				out[phi] = v
+			} else {
+				delete(out, phi)
+			}
+			continue
+		}
+		out[phi] = in
+	}
+	return out
+}
+
+// factsFor returns the facts a branch on cond in the given direction adds because of the aliases.
+func (a aliasEnv) factsFor(cond ssa.Value, truth bool) []Fact {
+	for i := 0; i < 4; i++ {
+		if u, ok := cond.(*ssa.UnOp); ok && u.Op == token.NOT {
+			cond = u.X
+			truth = !truth
+			continue
+		}
+		break
+	}
+	if phi, ok := cond.(*ssa.Phi); ok {
+		if d, known := a[phi]; known {
+			return CondFacts(d, truth)
+		}
+	}
+	return nil
+}
 
 func (e boolEnv) key() string {
 	if len(e) == 0 {
@@ -760,20 +884,21 @@ func (s Search) Reach(starts []Point, visit func(ins ssa.Instruction, via *ssa.B
 	}
 	seen := map[key]bool{}
 	type item struct {
-		p   Point
-		via *ssa.BasicBlock
-		env boolEnv
+		p     Point
+		via   *ssa.BasicBlock
+		env   boolEnv
+		alias aliasEnv
 	}
 	var work []item
 	for _, p := range starts {
-		work = append(work, item{p, nil, boolEnv{}})
+		work = append(work, item{p, nil, boolEnv{}, aliasEnv{}})
 	}
 	for len(work) > 0 {
 		it := work[len(work)-1]
 		work = work[:len(work)-1]
 		b := it.p.Block
 		if it.p.Idx == 0 {
-			k := key{b, it.via, it.env.key()}
+			k := key{b, it.via, it.env.key() + "|" + it.alias.key()}
 			if seen[k] {
 				continue
 			}
@@ -819,11 +944,26 @@ func (s Search) Reach(starts []Point, visit func(ins ssa.Instruction, via *ssa.B
 			if s.StopEdge != nil && s.StopEdge(b, si) {
 				continue
 			}
+			if s.StopEdgeF != nil {
+				var pf []Fact
+				if s.TrackBools && len(b.Instrs) > 0 && len(b.Succs) == 2 {
+					if iff, ok := b.Instrs[len(b.Instrs)-1].(*ssa.If); ok {
+						pf = it.alias.factsFor(iff.Cond, si == 0)
+					}
+				}
+				if s.StopEdgeF(b, si, pf) {
+					continue
+				}
+			}
 			env := it.env
+			alias := it.alias
 			if s.TrackBools {
 				env = it.env.enter(b, succ)
+				if s.StopEdgeF != nil {
+					alias = it.alias.enter(b, succ)
+				}
 			}
-			work = append(work, item{Point{succ, 0}, b, env})
+			work = append(work, item{Point{succ, 0}, b, env, alias})
 		}
 	}
 }
